@@ -123,7 +123,8 @@ namespace Givaro
     inline typename Montgomery<RecInt::ruint<K>>::Element& Montgomery<RecInt::ruint<K>>::div
     (Element& r, const Element& a, const Element& b) const
     {
-        return mulin(inv(r, b), a);
+        Element ib; // r may be the same object as a
+        return mul(r, a, inv(ib, b));
     }
 
     template<size_t K>
